@@ -158,6 +158,19 @@ def run(ctx):
                     prob = f"after {s}: {o!r} ({type(o).__name__}) != {p!r}"
                 elif not hasattr(o, "raw_value") or not same(o.raw_value, p.raw_value):
                     prob = f"after {s}: raw_value {getattr(o, 'raw_value', '<missing>')!r} != {p.raw_value!r}"
+            if not prob and rtok == "None" and (kind, vtok, "rewrap") not in commuted:
+                commuted.add((kind, vtok, "rewrap"))
+                # a value that happens to be a parsed value itself (re-wrapped by user code) has no separate raw value either:
+                # its raw value is the value, not whatever raw value the wrapped object carried
+                sentinel = 12345 if kind == "Binary" else b"\x01other-raw"
+                inner = cls_of(kind)(val, sentinel)
+                p2 = cls_of(kind)(inner)
+                try:
+                    ok = same(BUILTIN[kind](p2.raw_value), BUILTIN[kind](plain))
+                except Exception:  # noqa: BLE001
+                    ok = False
+                if not ok:
+                    prob = f"raw_value of {kind}({kind}({vtok}, raw={sentinel!r})) built without a raw value is {p2.raw_value!r}, not the value"
             if not prob and (kind, vtok) not in commuted:
                 commuted.add((kind, vtok))
                 pr = commutes(kind, p, val if kind != "Bool" else val)
@@ -168,7 +181,10 @@ def run(ctx):
         if prob:
             what = "raw-rule" if "raw_value" in prob and "after" not in prob else "copy" if "after" in prob else "builtin" if "built-in" in prob else "other"
             ctx.violation(f"C20/{kind}/{what}", f"{kind}({vtok}, raw={rtok}) steps {c['steps']}: {prob}", c)
-    ctx.extra["builtin_operation_sets_checked"] = len(commuted)
+    ctx.extra["builtin_operation_sets_checked"] = sum(1 for x in commuted if len(x) == 2)
+    ctx.extra["rewrapped_values_checked"] = sum(1 for x in commuted if len(x) == 3)
+    if ctx.extra["rewrapped_values_checked"] < 10 and not ctx.violations:
+        ctx.vacuity("re-wrapped values were not exercised")
     # ---- whole parsed packets
     from space_packet_parser import packets
     from harness import gendefs, xdoc
@@ -179,11 +195,13 @@ def run(ctx):
         import warnings
         with warnings.catch_warnings():
             warnings.simplefilter("ignore")
-            stream = b"".join(bytes(g.packet(mutate=False)) for _ in range(10))
-            try:
-                pks = list(dobj.packet_generator(stream))
-            except Exception:  # noqa: BLE001
-                continue
+            pks = []
+            for _ in range(10):
+                one = bytes(g.packet(mutate=False))
+                try:
+                    pks += list(dobj.packet_generator(one))      # one packet per stream: a field error ends only its own stream
+                except Exception:  # noqa: BLE001
+                    continue
         for pk in pks:
             npk += 1
             for s in ("copy", "deepcopy", "pickle0", "pickle2", "pickle5"):
@@ -206,6 +224,8 @@ def run(ctx):
                 if prob:
                     ctx.violation(f"C20/packet/{s}", f"{s} of a parsed packet: {prob}", {"step": s, "packet": list(bytes(pk.raw_data))})
     ctx.extra["packets_copied"] = npk
+    if npk < (10 if q else 100):
+        ctx.vacuity(f"only {npk} parsed packets were available for the copy / pickle comparison")
     ctx.sample({"case": cases[100]}, limit=1)
     ctx.sample({"case": cases[-1]}, limit=2)
 
